@@ -135,3 +135,27 @@ func VerifC10ServerDeadline() {
 	}
 	verifrt.Reach("end")
 }
+
+// VerifC10ServerBufferBound: P2 – a peer that keeps sending bytes without ever producing a
+// valid mark makes the server give up once maxHandshakeLength bytes are buffered: it never
+// reads (and buffers) more than that during the handshake.
+func VerifC10ServerBufferBound() {
+	verifrt.Ideal() // a MAC never equals a constant string
+	verifrt.SetClock(vNow)
+	verifrt.OnIntn(func(n int) int { return 0 })
+	sf := vServerFactory()
+	sc := verifrt.NewConn("srv", make([]byte, 3*maxHandshakeLength))
+	chunk := []int{maxHandshakeLength / 2, maxHandshakeLength, 3000}[verifrt.Pick("chunk_class", 0, 2)]
+	for c := chunk; c < len(sc.In); c += chunk {
+		sc.Cuts = append(sc.Cuts, c)
+	}
+	sc.EOFAtEnd = true
+	srv := vServerConn(sf, sc)
+	serverKey, err := ntor.NewKeypair(true)
+	verifrt.Assume(err == nil)
+	err = srv.serverHandshake(sf, serverKey)
+	verifrt.Assert(err != nil && len(sc.Out) == 0, "no valid handshake: error, nothing written")
+	verifrt.Assert(sc.Rpos < maxHandshakeLength+chunk && srv.receiveBuffer.Len() <= maxHandshakeLength+chunk, "the server stops reading once the maximum handshake length is buffered")
+	verifrt.Assert(sc.Rpos <= 2*maxHandshakeLength, "never more than one read beyond the maximum handshake length")
+	verifrt.Reach("end")
+}
